@@ -143,6 +143,33 @@ func (x *Exec) evalBin(c *evalCtx, b EBin) (Val, error) {
 	case b.Op == "||" && isLit(l.T, "true"):
 		return boolV(BoolT(true)), nil
 	}
+	// facts already known on this path decide the left operand as well
+	if st := c.state(); st != nil && l.K == VScalar && l.T.Sort == SBool {
+		knownFalse := st.Known.has(Not(l.T).S)
+		knownTrue := st.Known.has(l.T.S)
+		if e, ok := b.L.(EBin); ok && (e.Op == "==" || e.Op == "!=") {
+			// err == nil with err known non-nil, and the like
+			if ll, lerr := x.evalExpr(c, e.L); lerr == nil {
+				if rr, rerr := x.evalExpr(c, e.R); rerr == nil && ll.T.Sort == rr.T.Sort && ll.T.S != "" && rr.T.S != "" {
+					if st.Known.has(Neq(ll.T, rr.T).S) || st.Known.has(Not(Eq(ll.T, rr.T)).S) {
+						if e.Op == "==" {
+							knownFalse = true
+						} else {
+							knownTrue = true
+						}
+					}
+				}
+			}
+		}
+		switch {
+		case b.Op == "==>" && knownFalse:
+			return boolV(BoolT(true)), nil
+		case b.Op == "&&" && knownFalse:
+			return boolV(BoolT(false)), nil
+		case b.Op == "||" && knownTrue:
+			return boolV(BoolT(true)), nil
+		}
+	}
 	r, err := x.evalExpr(c, b.R)
 	if err != nil {
 		return Val{}, err
@@ -606,6 +633,76 @@ func (x *Exec) evalCall(c *evalCtx, call ECall) (Val, error) {
 		return intV(a[0].T), nil
 	case "isNotFound", "isTemporary", "isDuplicate", "isClosed", "isCtxErr":
 		return boolV(x.errPred(call.Fn, a[0].T)), nil
+	case "closureOf":
+		// closureOf(f, "tls.standardTlsConfig$1"): the function value f is a closure of that function
+		f := a[0]
+		if f.Fn == nil {
+			if cv, ok := closureReg[f.T.S]; ok {
+				f = cv
+			}
+		}
+		if f.Fn == nil {
+			pn := "cloIs!" + strings.Trim(a[1].T.S, `"`)
+			x.ufun(pn, []string{SInt}, SBool)
+			return boolV(app(sym(pn), SBool, a[0].T)), nil
+		}
+		return boolV(BoolT(funcKey(f.Fn) == strings.Trim(a[1].T.S, `"`))), nil
+	case "captured":
+		// captured(f, "pkg.Fn$1", "name"): current value of the variable name captured by f, a closure of
+		// that function. For a closure created on this path it is read from the captured variable; for a
+		// function value of unknown origin it is an uninterpreted function of the value (so that a callee's
+		// contract can tell its callers what the closure it returns has captured).
+		if len(a) != 3 {
+			return Val{}, fmt.Errorf("captured expects (f, function key, variable name)")
+		}
+		f := a[0]
+		if f.Fn == nil {
+			if cv, ok := closureReg[f.T.S]; ok {
+				f = cv
+			}
+		}
+		key := strings.Trim(a[1].T.S, `"`)
+		name := strings.Trim(a[2].T.S, `"`)
+		cfn := x.Prog.Funcs[key]
+		if f.Fn != nil {
+			cfn = f.Fn
+		}
+		if cfn == nil {
+			return Val{}, fmt.Errorf("captured: unknown function %s", key)
+		}
+		for i, fv := range cfn.FreeVars {
+			if fv.Name() != name {
+				continue
+			}
+			vt := fv.Type()
+			byRef := false
+			if pt, ok := vt.Underlying().(*types.Pointer); ok {
+				vt, byRef = pt.Elem(), true
+			}
+			if f.Fn != nil && i < len(f.Bind) {
+				if byRef {
+					return x.load(st, nil, f.Bind[i], fv.Type()), nil
+				}
+				return f.Bind[i], nil
+			}
+			cs := comps(vt)
+			ts := make([]Term, len(cs))
+			for k, cp := range cs {
+				fnm := "cap!" + key + "!" + name + cp.Suffix
+				x.ufun(fnm, []string{SInt}, cp.Sort)
+				ts[k] = app(sym(fnm), cp.Sort, a[0].T)
+			}
+			v, _ := unflatten(vt, ts)
+			return v, nil
+		}
+		return Val{}, fmt.Errorf("captured: %s has no free variable %s", key, name)
+	case "poolHas":
+		// poolHas(pool, cert): cert was added to the certificate pool
+		return boolV(x.poolHas(st, a[0].T, a[1].T)), nil
+	case "x509Verifies":
+		// x509Verifies(leaf, roots, dnsName): leaf.Verify succeeds against the pool for that name
+		x.ufun("x509Verifies", []string{SInt, SInt, SStr}, SBool)
+		return boolV(app("x509Verifies", SBool, a[0].T, a[1].T, a[2].T)), nil
 	case "neverCancelled":
 		// neverCancelled(ctx): the context is not cancelled at any time during the call
 		x.ufun("neverCancelled", []string{SInt}, SBool)
